@@ -173,6 +173,8 @@ pub fn generate(seed: u64, index: u64, cart_type: u8, rom_code: u8) -> Program {
     image[off + 0x3fff] = 0xc3;
   }
   image[0x0fe0] = 0xc9;
+  image[0x0fe8] = 0x1c; // a second target: INC E; RET
+  image[0x0fe9] = 0xc9;
 
   // ---- subroutines in bank 0 from 0x1000
   let mut subs: Vec<u16> = Vec::new();
@@ -511,7 +513,7 @@ pub fn generate(seed: u64, index: u64, cart_type: u8, rom_code: u8) -> Program {
           }
           if rng.chance(1, 4) {
             // leave the window through its last instruction (target bytes in video RAM)
-            a.ld_a(0xe0);
+            a.ld_a(if rng.chance(1, 2) { 0xe0 } else { 0xe8 });
             a.ld_a_to(0x8000);
             a.ld_a(0x0f);
             a.ld_a_to(0x8001);
